@@ -447,6 +447,9 @@ impl Drop for Span {
         if before != 1 {
             ctx.report("C01", "overlap_at_exit", format!("overlap_exit:{}", def.kind.name()), format!("op {} ({}) left object {} with occupancy {}", self.op, def.kind.name(), def.obj, before));
         }
+        // what this operation recorded about itself (outcome, runner) is published with its end stamp: the monitor pairs this with an
+        // acquire fence once it has seen the stamp (the records themselves stay Relaxed in the interpreter's build)
+        std::sync::atomic::fence(Ordering::Release);
         rec.end.store(clock(), ORD);
         ctx.progress();
     }
